@@ -26,14 +26,27 @@ impl Decimal {
         Decimal { coef, exp }
     }
 
-    pub fn lcm(&self, other: &Decimal) -> Decimal {
+    /// Least common multiple; `None` if it is not representable (coefficient exceeds `u32`).
+    pub fn checked_lcm(&self, other: &Decimal) -> Option<Decimal> {
         if self.coef == 0 || other.coef == 0 {
-            return Decimal::new(0, 0);
+            return Some(Decimal::new(0, 0));
         }
-        let a = self.coef * 10u32.pow(other.exp.saturating_sub(self.exp));
-        let b = other.coef * 10u32.pow(self.exp.saturating_sub(other.exp));
-        let coef = (a * b) / gcd(a, b);
-        Decimal::new(coef, self.exp.max(other.exp))
+        let a = (self.coef as u64)
+            .checked_mul(10u64.checked_pow(other.exp.saturating_sub(self.exp))?)?;
+        let b = (other.coef as u64)
+            .checked_mul(10u64.checked_pow(self.exp.saturating_sub(other.exp))?)?;
+        let coef = (a / gcd(a, b)).checked_mul(b)?;
+        Some(Decimal::new(
+            u32::try_from(coef).ok()?,
+            self.exp.max(other.exp),
+        ))
+    }
+
+    /// Panics if the result is not representable; see [`Decimal::checked_lcm`].
+    #[cfg(test)]
+    pub fn lcm(&self, other: &Decimal) -> Decimal {
+        self.checked_lcm(other)
+            .expect("Decimal::lcm: result does not fit in u32")
     }
 
     pub fn to_f64(&self) -> f64 {
@@ -64,7 +77,7 @@ impl TryFrom<f64> for Decimal {
     }
 }
 
-fn gcd(a: u32, b: u32) -> u32 {
+fn gcd(a: u64, b: u64) -> u64 {
     if b == 0 {
         a
     } else {
